@@ -113,7 +113,7 @@ ADDED = {
  "C04": "Also: the FIFO-to-priority-ring switch condition and the arrival-order migration; the priority bypass is decided on path facts whether or not a helper holds it.",
  "C05": "Also: sweepers re-arm an entry only after testing its tombstone clear.",
  "C06": "Also: the long-table entry is removed under the deadline read before the update; re-arm only after the tombstone test; recycled long-wait buckets are re-initialised. The millisecond sweep must consult a field an update rewrites before ending a hold (known finding: it does not).",
- "C07": "Also: log-file lists are snapshot-first; UnLock clears the persisted mark only with removal. A pooled Lock object enters or leaves the pool with its persisted mark cleared. A hold's persistence mode is never copied from another hold (known finding: later holders of a shared key inherit the first holder's mode).",
+ "C07": "Also: log-file lists are snapshot-first; UnLock clears the persisted mark only with removal. A pooled Lock object enters or leaves the pool with its persisted mark cleared. A hold's persistence mode is never copied from another hold (known finding: later holders of a shared key inherit the first holder's mode). The expiry written to and read from the log is reduced by the age of the hold for every granularity (millisecond holds: defect repaired).",
  "C08": "Also: values buffered only with records; readers never return io.ReadFull's error unmapped; oversized values written directly only with the record buffer empty. Readers return a constructed error only about a completely read item; the newest append file is cut back to whole records before appending (three reproduced crash-recovery defects were repaired). Something must truncate the value file after a torn value (known finding: nothing does).",
  "C09": "Also: receive ring >= queue capacity + 2; live append file touched only under the append mutex (a reproduced race was repaired); the ring examines all 16 id bytes.",
  "C10": "Also: the follower's only local answer needs the concurrent-check flag and Timeout == 0; replayed holds are marked persisted independent of role. Server.handle re-dispatches the request a protocol object had already read when the role changed under it. The wake-up pass must test the role before granting (known finding: it does not).",
